@@ -123,13 +123,13 @@ def explore(ctx):
     b = ctx.bins
     for prop in ('C03', 'C04', 'C05'):
         ctx.steps['c18_ntt_' + prop] = ctx.steps['c18_ntt']
-        run('c18_ntt_' + prop, b['c18_ntt'], ['--prop', prop])
+        run('c18_ntt_' + prop, b['c18_ntt'], ['--prop', prop, '--lits', ctx.lits_arg()])
         ctx.steps['c18_ntt_' + prop]['extra'] = ['--prop', prop]
     run('c18_hist', b['c18_hist'])
     for n in ('c18_sponge', 'c18_merkle', 'c18_poseidon'):
         for v in ('_avx2', '_avx512'):
             if n + v in b:
-                run(n + v, b[n + v])
+                run(n + v, b[n + v], ['--lits', ctx.lits_arg()])
     run('c18_cubic', b['c18_cubic'])
     run('c18_conv', b['c18_conv'])
     run('c18_inv', b['c18_inv'])
